@@ -4,6 +4,7 @@
 use vstd::prelude::*;
 verus! {
 //@include inc/c03_sighash_env.rs
+//@include inc/c03_cache_assumed.rs
 
 // ---- specification, from BIP143 + Elements (hashIssuance after hashSequence; the input's issuance after nSequence) ----
 spec fn acp_of(ht: EcdsaSighashType) -> bool { ecdsa_u32(ht) & 0x80 == 0x80 }
